@@ -239,10 +239,10 @@ Definition buf_ok (b : buffer) : Prop :=
   | Null => True
   end.
 
-(** [b] sits directly on top of [p]. *)
-Definition child_ok (L : N) (b p : buffer) : Prop :=
+(** A child buffer's limit is [L] minus a carry >= 0. *)
+Definition lim_ok (L : N) (b : buffer) : Prop :=
   match b with
-  | Limited lim _ _ _ => lim = (Z.of_N L - Z.of_N (carry_of p))%Z
+  | Limited lim _ _ _ => (lim <= Z.of_N L)%Z
   | _ => True
   end.
 
@@ -256,7 +256,7 @@ Fixpoint chain_ok (L : N) (b : buffer) (bl : list buffer) : Prop :=
   buf_ok b /\
   match bl with
   | [] => root_ok L b
-  | p :: rest => child_ok L b p /\ chain_ok L p rest
+  | p :: rest => lim_ok L b /\ chain_ok L p rest
   end.
 
 Definition binv (L : N) (s : bstate) : Prop := chain_ok L (top s) (below s).
@@ -267,7 +267,7 @@ Proof. unfold binv, binit. simpl. repeat split; lia. Qed.
 Lemma write_ok_buf_ok b s b' :
   buf_ok b -> write b s = (Ok tt, b') ->
   buf_ok b' /\ getvalue b' = getvalue b ++ (match b with Null => [] | _ => s end)
-  /\ (forall L p, child_ok L b p -> child_ok L b' p)
+  /\ (forall L, lim_ok L b -> lim_ok L b')
   /\ (forall L, root_ok L b -> root_ok L b').
 Proof.
   destruct b as [c|lim sz nl c|]; simpl; try tauto.
@@ -278,12 +278,22 @@ Proof.
   - intros _ E. inversion E; subst. simpl. auto.
 Qed.
 
-Lemma chain_carry_le L b bl : chain_ok L b bl -> (Z.of_N (carry_of b) <= Z.of_N L)%Z.
+Lemma buf_carry_le L b : buf_ok b -> lim_ok L b \/ root_ok L b ->
+  (Z.of_N (carry_of b) <= Z.of_N L)%Z.
 Proof.
   destruct b as [c|lim sz nl c|]; unfold carry_of; simpl; try lia.
-  destruct bl as [|p rest]; simpl.
-  - intros [(_ & Hle & _) Hr]. lia.
-  - intros [(_ & Hle & _) [Hc _]]. pose proof (N2Z.is_nonneg (carry_of p)). lia.
+  intros (_ & Hle & _) [H|H]; lia.
+Qed.
+
+(** Every buffer on the stack holds at most [L] bytes. *)
+Lemma chain_all_carry_le L : forall bl b p,
+  chain_ok L b bl -> In p (b :: bl) -> (Z.of_N (carry_of p) <= Z.of_N L)%Z.
+Proof.
+  induction bl as [|q rest IH]; intros b p H [<-|Hin].
+  - simpl in H. apply buf_carry_le; tauto.
+  - contradiction.
+  - cbn [chain_ok] in H. apply buf_carry_le; tauto.
+  - cbn [chain_ok] in H. destruct H as (_ & _ & Hq). exact (IH q p Hq Hin).
 Qed.
 
 Lemma bstep_ok_inv L s o s' :
@@ -295,10 +305,11 @@ Proof.
     + destruct H as [Hb Hr]. destruct (write_ok_buf_ok _ _ _ Hb W) as (H1 & _ & _ & H4). auto.
     + destruct H as (Hb & Hc & Hrest).
       destruct (write_ok_buf_ok _ _ _ Hb W) as (H1 & _ & H3 & _). auto.
-  - intros H E. inversion E; subst. cbn [top below chain_ok].
-    split; [|split; [|exact H]].
-    + pose proof (chain_carry_le _ _ _ H) as Hc. unfold carry_of in Hc. simpl. repeat split. lia.
-    + simpl. reflexivity.
+  - destruct (nth_error (t :: bl) k) as [p|] eqn:Hn; [|discriminate].
+    intros H E. inversion E; subst. cbn [top below chain_ok].
+    pose proof (chain_all_carry_le L bl t p H (nth_error_In _ _ Hn)) as Hc.
+    pose proof (N2Z.is_nonneg (carry_of p)) as Hp. unfold carry_of in Hc, Hp.
+    split; [|split; [|exact H]]; simpl; repeat split; lia.
   - intros H E. inversion E; subst. cbn [top below chain_ok]. simpl. tauto.
   - destruct bl as [|p rest]; [discriminate|]. intros H E. inversion E; subst.
     cbn [top below]. cbn [chain_ok] in H. tauto.
@@ -355,35 +366,79 @@ Proof.
   destruct Hb as (_ & Hle & ->). subst lim. lia.
 Qed.
 
-(** ... and the carry: a child buffer and the buffer it was opened on never
-    hold more than [L] bytes together (for every adjacent pair of the stack). *)
-Lemma chain_adjacent L : forall pre t bl b p post,
-  chain_ok L t bl -> t :: bl = pre ++ b :: p :: post -> chain_ok L b (p :: post).
+(** Every buffer of the stack (capture buffers, block.super buffers) holds at
+    most [L] bytes. *)
+Theorem every_buffer_le_limit : forall (L : N) ops s b,
+  brender (Some L) (binit (Some L)) ops = Ok s ->
+  In b (top s :: below s) -> utf8_len (getvalue b) <= L.
 Proof.
-  induction pre as [|x pre IH]; intros t bl b p post H Hs.
-  - simpl in Hs. inversion Hs; subst. exact H.
-  - simpl in Hs. inversion Hs; subst. clear Hs.
-    destruct pre as [|y pre']; simpl in H.
-    + destruct H as (_ & _ & Hp). apply (IH b (p :: post) b p post Hp). reflexivity.
-    + destruct H as (_ & _ & Hp). apply (IH y (pre' ++ b :: p :: post) b p post Hp). reflexivity.
+  intros L ops s b E Hin. pose proof (brender_inv L ops _ _ (binv_init L) E) as H.
+  pose proof (chain_all_carry_le L _ _ b H Hin) as Hc.
+  assert (Hb : buf_ok b).
+  { unfold binv in H. revert Hin H. generalize (top s) (below s).
+    intros t bl. revert t. induction bl as [|q rest IH]; intros t [<-|Hin] H.
+    - simpl in H; tauto.
+    - contradiction.
+    - cbn [chain_ok] in H; tauto.
+    - cbn [chain_ok] in H. destruct H as (_ & _ & Hq). exact (IH q Hin Hq). }
+  destruct b as [c|lim sz nl c|]; simpl in *; try tauto; try lia.
+  destruct Hb as (_ & _ & ->). unfold carry_of in Hc. simpl in Hc. lia.
 Qed.
 
-Theorem child_plus_parent_le_limit : forall (L : N) ops s pre b p post,
-  brender (Some L) (binit (Some L)) ops = Ok s ->
-  top s :: below s = pre ++ b :: p :: post ->
-  utf8_len (getvalue b) + utf8_len (getvalue p) <= L.
+Lemma brender_app ol : forall ops1 ops2 s,
+  brender ol s (ops1 ++ ops2) =
+    match brender ol s ops1 with Ok s1 => brender ol s1 ops2 | e => e end.
 Proof.
-  intros L ops s pre b p post E Hsplit.
-  pose proof (brender_inv L ops _ _ (binv_init L) E) as H. unfold binv in H.
-  pose proof (chain_adjacent L _ _ _ _ _ _ H Hsplit) as Hc. clear H Hsplit E.
-  cbn [chain_ok] in Hc. destruct Hc as (Hb & Hc & Hp).
-  pose proof (chain_carry_le _ _ _ Hp) as Hpl.
-  assert (buf_ok p) as Hbp by (destruct post; simpl in Hp; tauto).
-  assert (utf8_len (getvalue p) = carry_of p) as Ep.
-  { destruct p as [c'|lim' sz' nl' c'|]; simpl in *; try tauto; try reflexivity.
-    unfold carry_of; simpl. destruct Hbp as (_ & _ & ->). reflexivity. }
-  rewrite Ep.
-  destruct b as [c|lim sz nl c|]; simpl in *; try tauto; try lia.
+  induction ops1 as [|o ops1 IH]; intros ops2 s; [reflexivity|].
+  cbn [app brender]. destruct (bstep ol s o) as [[[]| | |] s1]; try reflexivity. apply IH.
+Qed.
+
+Lemma brender_writes ol : forall ss s s',
+  brender ol s (map Write ss) = Ok s' ->
+  below s' = below s /\ closed s' = closed s
+  /\ exists rs, writes (top s) ss = (rs, top s') /\ all_ok rs = true.
+Proof.
+  induction ss as [|t ss IH]; intros s s'.
+  - simpl. intros E; inversion E; subst. repeat split. exists []. auto.
+  - cbn [map]. intros E. apply brender_ok_step in E as (s1 & E1 & E2).
+    cbn [bstep] in E1. destruct (write (top s) t) as [r b] eqn:W. inversion E1; subst.
+    destruct (IH _ _ E2) as (Hb & Hc & rs & Hw & Hok). cbn [top below closed] in *.
+    repeat split; try assumption. exists (Ok tt :: rs). cbn [writes]. rewrite W, Hw. auto.
+Qed.
+
+(** The carry: while text is written to a child buffer, the child and the
+    buffer it was opened on (the [k]-th one below it) never hold more than [L]
+    bytes together. *)
+Theorem child_plus_parent_le_limit : forall (L : N) ops k ss s p,
+  brender (Some L) (binit (Some L)) (ops ++ OpenChild k :: map Write ss) = Ok s ->
+  nth_error (below s) k = Some p ->
+  utf8_len (getvalue (top s)) + utf8_len (getvalue p) <= L.
+Proof.
+  intros L ops k ss s p E Hn. rewrite brender_app in E.
+  destruct (brender (Some L) (binit (Some L)) ops) as [s0| | |] eqn:E0; try discriminate.
+  apply brender_ok_step in E as (s1 & E1 & E2).
+  pose proof (brender_inv L ops _ _ (binv_init L) E0) as H0. unfold binv in H0.
+  cbn [bstep] in E1. destruct (nth_error (top s0 :: below s0) k) as [q|] eqn:Hq; [|discriminate].
+  inversion E1; subst s1. clear E1.
+  destruct (brender_writes _ _ _ _ E2) as (Hb & _ & rs & Hw & Hok). cbn [top below] in Hb, Hw.
+  rewrite Hb in Hn. rewrite Hq in Hn. inversion Hn; subst q. clear Hn.
+  pose proof (chain_all_carry_le L _ _ p H0 (nth_error_In _ _ Hq)) as Hc.
+  assert (Hbp : utf8_len (getvalue p) = carry_of p).
+  { assert (buf_ok p).
+    { revert Hq H0. generalize (top s0) (below s0). intros t bl. revert t k.
+      induction bl as [|x rest IH]; intros t [|k'] Hq H0; simpl in Hq.
+      - inversion Hq; subst. simpl in H0; tauto.
+      - destruct k'; discriminate.
+      - inversion Hq; subst. cbn [chain_ok] in H0; tauto.
+      - cbn [chain_ok] in H0. destruct H0 as (_ & _ & Hx). exact (IH x k' Hq Hx). }
+    destruct p as [c|lim sz nl c|]; simpl in *; try tauto; try reflexivity.
+    unfold carry_of; simpl. destruct H as (_ & _ & ->). reflexivity. }
+  rewrite Hbp. unfold get_output_buffer in Hw.
+  change (match limited_size p with Some sz => sz | None => 0 end) with (carry_of p) in Hw.
+  pose proof (writes_ok_le _ _ _ _ _ _ _ Hw Hok) as Hle.
+  apply writes_ok_content in Hw; [|exact Hok]. rewrite Hw. cbn [getvalue app nl_apply].
+  rewrite map_id. simpl in Hle. pose proof (N2Z.is_nonneg (carry_of p)).
+  assert (0 <= Z.of_N L - Z.of_N (carry_of p))%Z by lia. specialize (Hle H1). lia.
 Qed.
 
 (** * Transparency: simulation between the limited and the unlimited run *)
@@ -420,6 +475,22 @@ Proof.
   - cbn [write]. intros _ E. inversion E; subst. congruence.
 Qed.
 
+Lemma Forall2_nth_some {A B} (R : A -> B -> Prop) : forall l l' k a,
+  Forall2 R l l' -> nth_error l k = Some a -> exists b, nth_error l' k = Some b /\ R a b.
+Proof.
+  induction l as [|x l IH]; intros l' k a H Hn; destruct k; simpl in Hn; try discriminate;
+    inversion H; subst.
+  - inversion Hn; subst. eexists; split; [reflexivity|assumption].
+  - simpl. eapply IH; eauto.
+Qed.
+
+Lemma Forall2_nth_none {A B} (R : A -> B -> Prop) : forall l l' k,
+  Forall2 R l l' -> nth_error l k = None -> nth_error l' k = None.
+Proof.
+  induction l as [|x l IH]; intros l' k H Hn; inversion H; subst; destruct k; simpl in *;
+    try reflexivity; try discriminate. eapply IH; eauto.
+Qed.
+
 Lemma bstep_sim L s u o s' :
   bsim s u -> bstep (Some L) s o = (Ok tt, s') ->
   exists u', bstep None u o = (Ok tt, u') /\ bsim s' u'.
@@ -430,7 +501,10 @@ Proof.
   - destruct (write t s) as [r b] eqn:W. intros E; inversion E; subst.
     destruct (write_sim _ _ _ _ Ht W) as (u' & Wu & Hs). rewrite Wu.
     eexists; split; [reflexivity|]. cbn [top below closed]. auto.
-  - intros E; inversion E; subst. eexists; split; [reflexivity|].
+  - destruct (nth_error (t :: bl) k) as [p|] eqn:Hn; [|discriminate].
+    assert (Hall : Forall2 buf_sim (t :: bl) (tu :: blu)) by (constructor; assumption).
+    destruct (Forall2_nth_some _ _ _ _ _ _ Hall Hn) as (pu & Hnu & _). rewrite Hnu.
+    intros E; inversion E; subst. eexists; split; [reflexivity|].
     cbn [top below closed]. repeat split; simpl; auto.
   - intros E; inversion E; subst. eexists; split; [reflexivity|].
     cbn [top below closed]. repeat split; auto.
@@ -455,7 +529,11 @@ Proof.
   destruct o; cbn [bstep top below closed].
   - destruct (write t s) as [r0 b] eqn:W. intros E Hr; inversion E; subst.
     left. eapply write_sim_err; eauto.
-  - intros E Hr; inversion E; subst; congruence.
+  - assert (Hall : Forall2 buf_sim (t :: bl) (tu :: blu)) by (constructor; assumption).
+    destruct (nth_error (t :: bl) k) as [p|] eqn:Hn.
+    + intros E Hr; inversion E; subst; congruence.
+    + rewrite (Forall2_nth_none _ _ _ _ Hall Hn).
+      intros E Hr; inversion E; subst. right. reflexivity.
   - intros E Hr; inversion E; subst; congruence.
   - destruct bl as [|p rest]; inversion Hb; subst.
     + intros E Hr; inversion E; subst. right. reflexivity.
@@ -551,9 +629,9 @@ Qed.
 (** A render with a capture, a blank block and a block.super-like child that
     succeeds under limit 8 with 3 + 3 bytes on a child and its parent ... *)
 Example render_ok_example :
-  let ops := [Write [97;98;99]; OpenChild; Write [233]; Write [120]; Close;
-              OpenNull; Write [1;2;3;4;5;6;7;8;9]; OpenChild; Write [8364]; Close; Close;
-              OpenChild; Write [13;10]; CloseWrite] in
+  let ops := [Write [97;98;99]; OpenChild 0; Write [233]; Write [120]; Close;
+              OpenNull; Write [1;2;3;4;5;6;7;8;9]; OpenChild 0; Write [8364]; Close; Close;
+              OpenChild 0; Write [13;10]; CloseWrite] in
   exists s, brender (Some 8) (binit (Some 8)) ops = Ok s
             /\ output s = [97;98;99;13;10]
             /\ closed s = [[13;10]; []; [8364]; [233;120]].
@@ -562,8 +640,8 @@ Proof. eexists. vm_compute. repeat split; reflexivity. Qed.
 (** ... and fails under limit 5 at the write into the child buffer (3 bytes
     carried + 3 > 5), although the final output has only 5 bytes. *)
 Example render_fail_example :
-  let ops := [Write [97;98;99]; OpenChild; Write [233]; Write [120]; Close;
-              OpenChild; Write [13;10]; CloseWrite] in
+  let ops := [Write [97;98;99]; OpenChild 0; Write [233]; Write [120]; Close;
+              OpenChild 0; Write [13;10]; CloseWrite] in
   brender (Some 5) (binit (Some 5)) ops = LErr OutputStreamLimitError None
   /\ exists u, brender None (binit None) ops = Ok u /\ utf8_len (output u) = 5.
 Proof. split; [reflexivity|]. eexists. vm_compute. split; reflexivity. Qed.
